@@ -3,3 +3,4 @@ pub mod canon;
 pub mod tokrec;
 pub mod model;
 pub mod drive;
+pub mod xmlrec;
